@@ -16,7 +16,7 @@ func init() {
 	mc.Register(&mc.Property{
 		ID:    "C01",
 		Title: "No unauthorized overdraft",
-		Rule: "(a) all single-send scripts over the C04 source alphabet (accounts repeated, aliased through $v in {a,b,world}, bounded/unbounded overdraft, caps, allotments) with destinations {@x, @a, ordered-with-kept} x all balance sheets x all amounts; (b) all statement sequences of length <= L over the statement alphabet (sends, send-all, saves, money flowing back) x all sheets; " +
+		Rule: "(a) all single-send scripts over the C04 source alphabet (accounts repeated, aliased through $v in {a,b,world}, bounded/unbounded overdraft, caps, allotments) with destinations {@x, @a, ordered-with-kept} x all balance sheets x all amounts; (b) all statement sequences of length <= L over the statement alphabet (sends, send-all, saves, money flowing back) x all sheets; (c) the shared small alphabets: statements taking amounts / caps / bounds / portions from variables incl. arithmetic on them (vars-L*), statements about edge relations - overdraft bound 0 or negative, an account paying itself, sources after a capped @world, an account named world:fees, saving exactly the balance (edge-L*), statements over two assets with amounts and accounts from balance() / overdraft() / meta() variables (origin-L*); " +
 			"oracle: replay of the returned postings in order on the starting balances, every non-exempt account stays >= min(start, -largest bounded grant); only successful executions are judged; non-trivial = success with >= 1 posting whose source is not exempt; distinct = script text + inputs",
 		Assumptions: []string{"exempt accounts: world and every account the script writes with `allowing unbounded overdraft` (resolved through variable values)", "a negative overdraft allowance is treated as 0 by the monitor (weaker than the letter of the statement, never stronger)"},
 		QuickBudget: 70 * time.Second,
